@@ -4,8 +4,8 @@ use crate::wal::block::Block;
 #[cfg(target_os = "linux")]
 use crate::wal::block::Metadata;
 use crate::wal::config::{
-    DEFAULT_BLOCK_SIZE, FsyncSchedule, MAX_BATCH_BYTES, MAX_BATCH_ENTRIES, PREFIX_META_SIZE,
-    debug_print,
+    DEFAULT_BLOCK_SIZE, FsyncSchedule, MAX_ALLOC, MAX_BATCH_BYTES, MAX_BATCH_ENTRIES,
+    PREFIX_META_SIZE, debug_print,
 };
 #[cfg(target_os = "linux")]
 use crate::wal::config::{USE_FD_BACKEND, checksum64};
@@ -68,6 +68,14 @@ impl Writer {
         })?;
 
         let need = (PREFIX_META_SIZE as u64) + (data.len() as u64);
+        if need > MAX_ALLOC {
+            // Reject before sealing: failing in alloc_block after the current block was put on
+            // the sealed chain would leave it both sealed and active (entries read twice).
+            return Err(std::io::Error::new(
+                std::io::ErrorKind::InvalidInput,
+                "invalid allocation size, a single entry can't be more than 1gb",
+            ));
+        }
         if *cur + need > block.limit {
             debug_print!(
                 "[writer] sealing: col={}, block_id={}, used={}, need={}, limit={}",
@@ -161,6 +169,17 @@ impl Writer {
             return Err(std::io::Error::new(
                 std::io::ErrorKind::InvalidInput,
                 "batch exceeds 10GB limit",
+            ));
+        }
+
+        if batch
+            .iter()
+            .any(|data| (PREFIX_META_SIZE as u64) + (data.len() as u64) > MAX_ALLOC)
+        {
+            // Same limit as single appends; must be checked before any block is sealed.
+            return Err(std::io::Error::new(
+                std::io::ErrorKind::InvalidInput,
+                "invalid allocation size, a single entry can't be more than 1gb",
             ));
         }
 
